@@ -15,6 +15,10 @@ PENDING = "check not built yet (implementation in progress); the design is in DE
 
 VPNOTE = 'Trusted: clang AST, the path engine, the fact language of sa/vp.py (what counts as a reducing producer / accepted test is listed there), buffer identity by carve expression; frozen per-function tables (point-validation level, accepted alternative forms) carry one reason each. Decides necessary structural conditions, not the numerical statements of the property.'
 CHECKS = {
+ "C11": dict(level="other",
+   text="The ordering mechanism behind overlap tolerance is decided on all paths: for each of the ~55 functions whose header remark allows buffers to overlap (instances parsed from belt.h/bash.h/brng.h/der.h/mem.h) and each ordered pair (P writable, Q), once P has been written Q is never read again, and an operation that reads Q and writes P at once is itself tolerant for those parameters (computed recursively from callee bodies with per-parameter read/write summaries; memmove tolerant, memcpy not). Found and fixed five documented-legal placements with wrong results. Output equality for every placement is a value statement; what is decided is the necessary ordering condition.",
+   design="4/C11", technique="effect-ordering dataflow on all CFG paths with bottom-up read/write summaries",
+   note="Trusted: clang AST, effect summaries (prototype const-ness for bodiless callees), memMove/memJoin as tolerant primitives (memJoin's case analysis on pointer order is not followed; listed as frozen undecided), the header remarks as the specification."),
  "C10": dict(level="other",
    text="One clause of the property is decided, exactly: a state that belt.h/brng.h/botp.h declare copyable as a memory fragment never stores an address derived from the state itself, a local object or the scratch stack. Type inventory of all state structs of these families (a struct without pointer fields cannot break relocation) plus classification of every store into a pointer field by the origin of the stored address. Chunking equivalence and Get-then-continue quantify over values and are declined.",
    design="4/C10", technique="type inventory + points-to classification of stores (AST dataflow)",
